@@ -461,3 +461,7 @@ impl InputTextIndex for InputBuffer {
         self.m2o[range.start]..self.m2o[range.end]
     }
 }
+
+// verification hook: harness text lives outside the repository (see MANIFEST.hooks)
+#[cfg(any(kani, sudachi_verif))]
+include!(concat!(env!("SUDACHI_VERIF_DIR"), "/input_text__buffer__mod.rs"));
